@@ -26,8 +26,9 @@ How the statement is covered.
   which `slice_covers` provides for every block a sender of this model emits; `system_safe` closes the loop for
   two endpoints and the relay under every fault script.
 * `tokens_independent`, `szx_negotiation_min`, `etag_change_restarts`, `expiry_finite` ("never by hanging": every
-  waiting state has a finite deadline), `faultfree_progress_*` (auxiliary), and the two negative results of
-  DESIGN §6: `oneway_block1_never_completes` (O1), `bert_first_block_stalls` (O2).
+  waiting state has a finite deadline), `faultfree_progress_block1/2` (auxiliary: one round for a symbolic block
+  index, equal non-BERT exponents; the induction over the rounds is run on instances only), and the two negative
+  results of DESIGN §6: `oneway_block1_never_completes` (O1), `bert_first_block_stalls` (O2).
 
 Hypotheses that are assumptions about the environment: token ↔ table key injective (C03's `HashInj`), the ETag
 discipline of RFC 7959 §2.4 (`Discipline`), tokens are not empty (the layer hands token-less blocks on unassembled).
@@ -225,6 +226,119 @@ theorem expiry_finite :
   · simp only [World.sleep, List.mem_map, List.mem_filter]
     exact ⟨p, ⟨hp, by simp [hdl, hle]⟩, rfl⟩
 
+/-! ## Two endpoints and the relay: every fault script -/
+
+/-- **system_safe.** A (client) and B (server) joined by the relay.  For every script of relay decisions — deliver,
+    duplicate, drop, swap, replay of any message that ever was in flight —, calls of `Do` and one-way `WriteMessage`
+    by A's application, sleeps and cache sweeps: every message either layer hands to its application is an arrival
+    that carries no data block of its direction, handed on as it is, or exactly what the peer's application supplied
+    under that token and ETag (body, other options, code).  The invariant (`WInv`) behind it: held bytes are
+    prefixes, cached sending messages are whole supplied messages, everything that ever was on the wire is `GoodMsg`. -/
+theorem system_safe {RA RB : Reg} (hdA : Discipline RA) (hdB : Discipline RB) (hreq : RegReq RB)
+    (w : World) (hw : WInv RA RB w) (ops : List Op)
+    (hops : ∀ r, (Op.doReq r ∈ ops ∨ Op.writeReq r ∈ ops) → ReqOK RB r) :
+    WInv RA RB (World.run w ops).1 ∧
+    ∀ s d, Event.deliver s d ∈ (World.run w ops).2 → NoData d ∨ Complete (regOf RA RB s) d.tok d :=
+  ⟨(world_run_inv hdA hdB hreq ops w hw hops).1, fun _ _ h => (world_run_inv hdA hdB hreq ops w hw hops).2 _ h⟩
+
+/-- the hypotheses are satisfiable: the instance `exWorld` (16-byte blocks, B answers the POST of token 7 with 40 bytes)
+    satisfies the invariant, its registries the ETag discipline, the request is admissible … -/
+example : WInv exRA exR exWorld ∧ Discipline exRA ∧ Discipline exR ∧ RegReq exR ∧ ReqOK exR exReq := by
+  refine ⟨?_, by intro tok e s s' _ h2; simp [exRA] at h2, by intro tok e s s' _ h2; simp [exR] at h2, ?_, ?_⟩
+  · exact {
+      ia := by intro tok e he; simp [exWorld, Cache.empty] at he
+      ib := by intro tok e he; simp [exWorld, Cache.empty] at he
+      sa := by intro tok e he; simp [exWorld, Cache.empty] at he
+      sb := by intro tok e he; simp [exWorld, Cache.empty] at he
+      pk := by intro p hp; simp [exWorld] at hp
+      ca := by unfold CfgOK; decide
+      cb := by unfold CfgOK; decide
+      app := by
+        intro d x hx
+        simp only [exWorld, exApp] at hx
+        split at hx
+        · rename_i hc
+          injection hx with hx
+          subst hx
+          exact ⟨⟨by simp [exRA, hc.2], rfl, rfl⟩, trivial⟩
+        · cases hx }
+  · intro tok e s hs
+    simp only [exR] at hs
+    split at hs
+    · injection hs with hs; subst hs; unfold ReqCode; decide
+    · cases hs
+  · exact ⟨⟨by simp [exR, exReq], rfl, rfl⟩, by unfold ReqCode; decide⟩
+
+/-- … and the run is not empty: upload in three blocks, the first block of the response duplicated by the relay, two old
+    messages replayed at the end.  B's application is handed the 40-byte request exactly once, A's the 40-byte
+    response exactly once; what else reaches A's application are signals of the layer (4.08, 2.31) caused by the
+    duplicates, handed on as they are. -/
+example : exDeliveries (World.run exWorld
+    ([.doReq exReq] ++ List.replicate 5 (.fault .deliver) ++ [.fault .dup] ++ List.replicate 12 (.fault .deliver) ++
+     [.fault (.replay 0), .fault (.replay 4)] ++ List.replicate 4 (.fault .deliver))).2 =
+    [(false, 2, 40, true), (true, 68, 40, true), (true, 136, 0, false), (true, 95, 0, false), (true, 95, 0, false)] := by decide
+
+/-! ## Progress without faults (auxiliary: shows that the safety theorems are not vacuous; not part of the verdict) -/
+
+/-- **faultfree_progress_block1** (request upload, equal non-BERT exponents).  One round of the transfer, for a symbolic
+    block index `k`: (1) the receiver, holding exactly the first `k` blocks, appends block `k` and acknowledges it with
+    2.31 — or, if the block ends the body, removes its entry and hands the complete body to the application;
+    (2) the sender, on that acknowledgement, emits block `k+1`.  Chaining the two from block 0 completes a body of
+    `n` blocks after `n` arrivals at the receiver (the instance below runs the whole loop). -/
+theorem faultfree_progress_block1 (cfg : Cfg) (r : Msg) (hs : cfg.szx < 7) (hpp : isPostPut r.code = true) (htok : r.tok ≠ 0) :
+    (∀ (ent : Entry) (now : Int) (app : App) (ms k : Nat), now ≤ ent.validUntil →
+      ent.msg.body = r.body.take (k * sizeN cfg.szx) → k * sizeN cfg.szx ≤ r.body.length → ent.msg.etag = r.etag → k < 2 ^ 20 →
+      ((k + 1) * sizeN cfg.szx < r.body.length →
+        handleS cfg ⟨none, some ent⟩ now (uploadBlock r cfg.szx ms k) app =
+          (⟨none, some ⟨{ ent.msg with body := r.body.take ((k + 1) * sizeN cfg.szx) }, ent.validUntil⟩⟩,
+           { reply := some (uploadAck r.tok cfg.szx k) })) ∧
+      (r.body.length ≤ (k + 1) * sizeN cfg.szx →
+        (handleS cfg ⟨none, some ent⟩ now (uploadBlock r cfg.szx ms k) app).1.rcv = none ∧
+        (handleS cfg ⟨none, some ent⟩ now (uploadBlock r cfg.szx ms k) app).2.delivered =
+          [{ ent.msg with body := r.body, block1 := none, size1 := none }])) ∧
+    (∀ (exp now : Int) (rcv : Option Entry) (app : App) (k : Nat), now ≤ exp →
+      (k + 1) * sizeN cfg.szx ≤ r.body.length → r.body.length < 4294967296 → k + 1 < 2 ^ 20 →
+      handleS cfg ⟨some ⟨r, exp⟩, rcv⟩ now (uploadAck r.tok cfg.szx k) app =
+        (⟨some ⟨r, exp⟩, rcv⟩, { reply := some (uploadBlock r cfg.szx cfg.maxSize (k + 1)) })) :=
+  ⟨fun ent now app ms k h1 h2 h3 h4 h5 => receiver_round cfg r ent now app ms k hs hpp htok h1 h2 h3 h4 h5,
+   fun exp now rcv app k h1 h2 h3 h4 => sender_round cfg r exp now rcv app k hs hpp htok h1 h2 h3 h4⟩
+
+/-- **faultfree_progress_block2** (response download, equal non-BERT exponents).  One round for a symbolic block index
+    `j`: (1) the responder, with the response cached, answers the request for block `j` with block `j` (and drops the
+    cached response with the last block); (2) the requester, holding exactly the first `j` blocks, appends block `j`
+    and asks for block `j+1` — or, if the block ends the body, removes its entry and hands the complete body on. -/
+theorem faultfree_progress_block2 (cfg : Cfg) (resp req : Msg) (hs : cfg.szx < 7) (hrq : isRequest req.code = true)
+    (hnopp : isPostPut resp.code = false) (hnr : isRequest resp.code = false) (hnsig : isSignal resp.code = false)
+    (hncont : resp.code ≠ codeContinue) (hrc : resp.code > codeDELETE) (hb1 : resp.block1 = none)
+    (htok : resp.tok ≠ 0) (hqtok : req.tok ≠ 0) :
+    (∀ (exp now : Int) (rcv : Option Entry) (app : App) (j : Nat), now ≤ exp →
+      j * sizeN cfg.szx ≤ resp.body.length → resp.body.length < 4294967296 → j < 2 ^ 20 →
+      handleS cfg ⟨some ⟨resp, exp⟩, rcv⟩ now (downloadReq req cfg.szx j) app =
+        (if (j + 1) * sizeN cfg.szx < resp.body.length then ⟨some ⟨resp, exp⟩, rcv⟩ else ⟨none, rcv⟩,
+         { reply := some (downloadBlock resp cfg.szx cfg.maxSize j) })) ∧
+    (∀ (sexp : Int) (ent : Entry) (now : Int) (app : App) (ms j : Nat), now ≤ ent.validUntil → now ≤ sexp →
+      ent.msg.body = resp.body.take (j * sizeN cfg.szx) → j * sizeN cfg.szx ≤ resp.body.length → ent.msg.etag = resp.etag →
+      j + 1 < 2 ^ 20 →
+      ((j + 1) * sizeN cfg.szx < resp.body.length →
+        handleS cfg ⟨some ⟨req, sexp⟩, some ent⟩ now (downloadBlock resp cfg.szx ms j) app =
+          (⟨some ⟨req, sexp⟩, some ⟨{ ent.msg with body := resp.body.take ((j + 1) * sizeN cfg.szx) }, ent.validUntil⟩⟩,
+           { reply := some (downloadReq req cfg.szx (j + 1)) })) ∧
+      (resp.body.length ≤ (j + 1) * sizeN cfg.szx →
+        (handleS cfg ⟨some ⟨req, sexp⟩, some ent⟩ now (downloadBlock resp cfg.szx ms j) app).1.rcv = none ∧
+        (handleS cfg ⟨some ⟨req, sexp⟩, some ent⟩ now (downloadBlock resp cfg.szx ms j) app).2.delivered =
+          [{ ent.msg with body := resp.body, block2 := none, size2 := none }])) :=
+  ⟨fun exp now rcv app j h1 h2 h3 h4 => responder_round cfg resp req exp now rcv app j hs hrq hnopp hrc hqtok h1 h2 h3 h4,
+   fun sexp ent now app ms j h1 h2 h3 h4 h5 h6 =>
+     requester_round cfg resp req sexp ent now app ms j hs hrq hnopp hnr hnsig hncont hb1 htok h1 h2 h3 h4 h5 h6⟩
+
+/-- the whole loop on an instance: a 40-byte POST (three 16-byte blocks) answered with 40 bytes (three blocks) completes in
+    exactly 2·3 + 2·3 − 2 = 10 fault-free deliveries — both applications are handed the exact body, and A's call
+    returns; after 9 deliveries the response has not been handed on yet. -/
+example : exDeliveries (World.run exWorld ([.doReq exReq] ++ List.replicate 10 (.fault .deliver))).2 =
+      [(false, 2, 40, true), (true, 68, 40, true)] ∧
+    exDeliveries (World.run exWorld ([.doReq exReq] ++ List.replicate 9 (.fault .deliver))).2 = [(false, 2, 40, true)] ∧
+    (World.run exWorld ([.doReq exReq] ++ List.replicate 10 (.fault .deliver))).1.pending = [] := by decide
+
 /-! ## The two observations of DESIGN §6, as negative results -/
 
 /-- **oneway_block1_never_completes** (O1).  Every block `createSendingMessage` emits for a POST/PUT has a block
@@ -263,6 +377,9 @@ open CoapVerif.Props.C04
 #print axioms szx_negotiation_min
 #print axioms etag_change_restarts
 #print axioms expiry_finite
+#print axioms system_safe
+#print axioms faultfree_progress_block1
+#print axioms faultfree_progress_block2
 #print axioms oneway_block1_never_completes
 #print axioms bert_first_block_stalls
 end Audit
